@@ -451,6 +451,12 @@ func (e *c19Env) send(it *c19Item) *c19Resp {
 		return &c19Resp{Rejected: err.Error()}
 	}
 	req.RemoteAddr = "127.0.0.1:40000"
+	if it.Chunked {
+		// what the server sees of a chunked request: no declared length, the body still streams
+		req.ContentLength = -1
+		req.Header.Del("Content-Length")
+		req.TransferEncoding = []string{"chunked"}
+	}
 	w := httptest.NewRecorder()
 	resp := &c19Resp{}
 	func() {
